@@ -73,7 +73,7 @@ Inductive c10_case :=
 | RunCase (c : client) (cops rops : list rop_spec) (s : rstate) (script : list ain)
           (detect : bytes) (hkeys : list bytes) (o : obs)
 | BackoffCase (mn mx attempt : Z) (d : Z)    (* d = interval returned by the real function *)
-| UploadCase (retryable chunked : bool) (cform rform : amap) (fs : list mfile)
+| UploadCase (retryable chunked : bool) (od : list (bytes * bytes)) (cform rform : amap) (fs : list mfile)
              (dtab : list (bytes * bytes)) (o : list (list part * bool)) (failed upfront : bool)
 | GroupCase (cond_ops : list sop) (cond_views : list (list Z))
             (hook_ops : list sop) (hook_views : list (list Z))
@@ -144,9 +144,9 @@ Definition c10_check (cs : c10_case) : bool :=
   | BackoffCase mn mx a d =>
       (* d is a value of [backoff] for some draw: take u = d - half *)
       (backoff mn mx a (d - backoff_half mn mx a) =? d)%Z
-  | UploadCase retryable chunked cform rform fs dtab o failed upfront =>
+  | UploadCase retryable chunked od cform rform fs dtab o failed upfront =>
       let n := (length o + (if failed then 1 else 0))%nat in
-      let r := mp_run file_read (lookup_detect_pad dtab) retryable chunked n (add_values cform rform) fs in
+      let r := mp_run file_read (lookup_detect_pad dtab) retryable chunked n (od, add_values cform rform) fs in
       list_eqb (fun a b => list_eqb part_eqb (fst a) (fst b) && Bool.eqb (snd a) (snd b)) (fst (fst r)) o &&
       Bool.eqb (snd (fst r)) failed && Bool.eqb (snd r) upfront
   | GroupCase cops cviews hops hviews =>
